@@ -306,6 +306,13 @@ class NodeExecution:
     wait_for_versions: dict[str, int] = field(default_factory=dict)
 
 
+def _is_emit_sentinel(value: Any) -> bool:
+    """An emit signal is fresh every time it is produced."""
+    from hypergraph.nodes.base import _EMIT_SENTINEL
+
+    return value is _EMIT_SENTINEL
+
+
 @dataclass
 class GraphState:
     """Internal runtime state during graph execution.
@@ -337,7 +344,7 @@ class GraphState:
         self.values[name] = value
 
         # Only increment version if value actually changed
-        if is_new:
+        if is_new or _is_emit_sentinel(value):
             self.versions[name] = self.versions.get(name, 0) + 1
         else:
             # Defensive comparison for types like numpy arrays
